@@ -67,6 +67,49 @@ impl fmt::Debug for Parse {
 pub mod verif {
     use token::Tokens;
 
+    thread_local! {
+        static STUCK: std::cell::RefCell<(usize, usize, Vec<String>)> =
+            const { std::cell::RefCell::new((usize::MAX, 0, Vec::new())) };
+    }
+
+    /// called before each parse by the harness
+    pub fn reset() {
+        STUCK.with(|s| *s.borrow_mut() = (usize::MAX, 0, Vec::new()));
+    }
+
+    /// Called where an error is recorded WITHOUT consuming a token: a list loop that keeps doing
+    /// this at the same token index forever is reported as a panic naming the expected syntaxes
+    /// of the cycle (sorted) instead of exhausting memory.
+    pub(crate) fn no_progress(token_idx: usize, expected: &crate::ExpectedSyntax) {
+        let stuck = STUCK.with(|s| {
+            let mut s = s.borrow_mut();
+            if s.0 != token_idx {
+                *s = (token_idx, 0, Vec::new());
+            }
+            s.1 += 1;
+            if s.1 > 19_000 {
+                let name = match expected {
+                    crate::ExpectedSyntax::Named(n) => n.to_string(),
+                    crate::ExpectedSyntax::Unnamed(k) => format!("{:?}", k),
+                };
+                if !s.2.contains(&name) {
+                    s.2.push(name);
+                }
+            }
+            if s.1 > 20_000 {
+                let mut names = s.2.clone();
+                names.sort();
+                *s = (usize::MAX, 0, Vec::new());
+                Some(names)
+            } else {
+                None
+            }
+        });
+        if let Some(names) = stuck {
+            panic!("VERIF-NO-PROGRESS at token {} expected [{}]", token_idx, names.join("+"));
+        }
+    }
+
     /// (0 = StartNode, 1 = FinishNode, 2 = AddToken ; node kind name for StartNode), error count
     pub fn events(tokens: &Tokens, input: &str, repl: bool) -> (Vec<(u8, String)>, usize) {
         let g: fn(&mut crate::parser::Parser<'_>) = if repl {
